@@ -405,6 +405,21 @@ func Probe(id string, run func() error) {
 	probes = append(probes, &probe{id: id, run: run})
 }
 
+var probeRegressions []string
+
+func runProbe(p *probe) (err error) {
+	defer func() {
+		if r := recover(); r != nil {
+			err = fmt.Errorf("panic: %v", r)
+		}
+	}()
+	return p.run()
+}
+
+// evalKnown runs every registered probe once. A probe that reproduces and is listed as known:
+// prints KNOWN-FINDING and enables the exclusion of its class. A probe that reproduces and is NOT
+// listed (its finding is recorded as fixed, or was never recorded) is a violation: the defect is
+// back. A listed probe that no longer reproduces only prints a note.
 func evalKnown() {
 	knownOnce.Do(func() {
 		mu.Lock()
@@ -414,23 +429,19 @@ func evalKnown() {
 		defer func() { mu.Lock(); cur = prev; mu.Unlock() }()
 		loadKnown()
 		for _, p := range probes {
-			if _, ok := knownListed[p.id]; !ok {
-				continue
-			}
-			err := func() (err error) {
-				defer func() {
-					if r := recover(); r != nil {
-						err = fmt.Errorf("panic: %v", r)
-					}
-				}()
-				return p.run()
-			}()
-			if err != nil {
+			err := runProbe(p)
+			_, listed := knownListed[p.id]
+			switch {
+			case err != nil && listed:
 				knownLive[p.id] = true
 				if Shard() == 0 {
-					fmt.Printf("KNOWN-FINDING: property=%s id=%s %s [%v]\n", property, p.id, knownListed[p.id], err)
+					fmt.Printf("KNOWN-FINDING: property=%s id=%s %s [%v]\n", property, p.id, knownListed[p.id], capErr(err))
 				}
-			} else if Shard() == 0 {
+			case err != nil:
+				probeRegressions = append(probeRegressions, p.id)
+				writeViolation("probe:"+p.id, map[string]string{"probe": p.id}, fmt.Errorf("probe %s reproduces although the finding is not listed as known (a repaired defect is back, or an unrecorded one): %v", p.id, err))
+				fmt.Printf("--- FAIL: %s probe %s reproduces and is not listed as known: %v\n", property, p.id, capErr(err))
+			case listed && Shard() == 0:
 				fmt.Printf("NOTE: listed finding property=%s id=%s no longer reproduces; its class is generated again\n", property, p.id)
 			}
 		}
@@ -463,6 +474,9 @@ func Main(m *testing.M) {
 	flag.Parse()
 	evalKnown()
 	code := m.Run()
+	if len(probeRegressions) > 0 && Shard() == 0 && os.Getenv("VERIF_REPLAY") == "" {
+		code = 1
+	}
 	flush()
 	os.Exit(code)
 }
@@ -533,6 +547,18 @@ func ReplayAll(t *testing.T) {
 		var rf replayFile
 		if err := json.Unmarshal(b, &rf); err != nil {
 			t.Fatalf("replay %s: %v", f, err)
+		}
+		if strings.HasPrefix(rf.Sub, "probe:") {
+			id := strings.TrimPrefix(rf.Sub, "probe:")
+			for _, p := range probes {
+				if p.id == id {
+					if err := runProbe(p); err != nil {
+						writeViolation(rf.Sub, map[string]string{"probe": id}, err)
+						t.Errorf("REPLAY-FAIL %s: %v", f, capErr(err))
+					}
+				}
+			}
+			continue
 		}
 		var target *sub
 		for _, s := range subs {
